@@ -13,6 +13,11 @@ CHECKS = {
          "Step level: all 1225 combinations of (log p(x), log p(y), log q(y|x), log q(x|y)) over {ln1,ln2,ln3,-745,-inf,+inf,NaN}^2 x {0,ln1/2,ln1/4,-inf,NaN}^2 for state types i32/f32/f64 (incl. -0.0, NaN-payload and subnormal encodings of x) and float types f32/f64, with u at 0, the exact accept/reject threshold and its 3 neighbours either side, 1-ulp; the chain ends at y iff ln u < ratio (IEEE semantics), else bit-identical to x. For f32 every one of the 16,777,216 variates is executed for 9 ratio classes. Kernel level: on finite spaces (K=2 quick, 2..4 thorough; symmetric, asymmetric, one-directional proposals, zero-probability states) A(x,y) is measured exactly as #accepting variates / 2^24 for every proposable pair and detailed balance / pi P = pi are checked.",
          "Draw injection through the public `rng` field with a crafted xoshiro state; the premise (a step consumes exactly that output) is verified on every execution and its failure is a machinery error, not a verdict.",
          "DESIGN.md §3 C01"),
+ "C02": ("E1", "model_checking",
+         "exhaustive enumeration of the draws of the real HMC::step (momenta and acceptance uniforms injected through taps) over small alphabets with decision-boundary values, against an f64 velocity-Verlet reference; exact decision oracle on the implementation's recorded operands",
+         "For a grid of targets (DiffableGaussian2D, Rosenbrock2D, RosenbrockND, matmul Gaussians of dim 3/8/16, Student-t, quartic) x step sizes {1e-3,0.1,0.9,2.5,1e3} x L {0,1,2,3,8,64} x n_chains {1,2,3,32} x backends NdArray<f32>/<f64>: momenta per coordinate from {-2,-0.5,0,0.5,2} (full product for n*D <= 3-4, else <= 1-2 deviating coordinates) and per-row acceptance draws at {1e-30, one ulp below / at / above exp(H-H') as recorded by the implementation, 1-ulp}. On every step: (i) the row ends at the recorded proposal iff recorded ln u <= recorded H-H', else bit-identical to its previous position; (ii) proposal, momentum and energy difference equal L velocity-Verlet steps in f64 (tolerance scaled by the measured error amplification of the trajectory); (iii) each row of a batch equals the same (x,p,u) run alone; (iv) integrating from (x',-p') returns to (x,-p); (v) all {accept,reject}^3 three-step histories, each step checked from the actual current position.",
+         "Tolerances: f64 backend 1e-11*scale*(L+1)*amplification, f32 backend 1e-3 (burn's f32 kernels differ between SIMD lanes); unstable trajectories (reference magnitude > 1e6 or amplification > 1e6) are compared on decision logic only and counted.",
+         "DESIGN.md §3 C02"),
  "C05": ("E1/E4", "model_checking",
          "explicit-state construction of the exact one-sweep kernel by enumerating EVERY outcome sequence of the real step() (scripted conditional) + list-model check of the call log for every dimension 1..64",
          "(a) A recording conditional logs (index, copy of the state it was given) and returns a fresh unique value; for every dimension 1..64, 1-3 steps, f64 (incl. NaN/-0/inf states), f32, i32 and 2-4 chains through GibbsSampler::run the log must equal the list model (each coordinate once, in order, freshest state, nothing else changed). (b) For finite joints (all 255 weight tables over {0..3} on {0,1}^2, structured tables with zeros on {0,1}^3, {0,1,2}^2, thorough also {0,1}^4, {0,1,2}^3) every outcome sequence of one sweep from every positive-probability state is executed on the real chain with its exact probability, giving the exact kernel P; pi P = pi is checked to 1e-12.",
